@@ -13,7 +13,12 @@ Kinds of request:
     md-rotation            measure-directly with a rotation: AssertionError after both temporaries exist (oracle only)
     not-adjacent           refused by the topology check before anything is created (C12); here for the host's bookkeeping: the
                            physical id reserved for the pair is released again
-    ok                     the request succeeds (the model must agree there too; measure-directly: oracle only)
+    ok                     the request succeeds (the model must agree there too)
+Measure-directly requests (type M) carry the two bases the creator is to sample (`md`: basis sets NONE / XZ / XYZ per side, 8-bit
+weights written into the request array as props/c08.py does, and the seed that makes executioner.py's `random.choices` -- replaced
+by a seeded `random.Random` -- return exactly these bases; rotations stay 0) and the coins of the two destructive measurements.
+A request that succeeds may be followed by a second one of the other type on the same sockets (`then`), claimed in order by
+the receiver either at once or after both were made (`late_claim`: the half and the outcome record then wait in ONE deque).
 Every message is handled to completion before the next one is sent, so a scenario is a deterministic list of records:
 what the host replied, every native call (tap), the dump of all nodes, the handling host's bookkeeping, the receive deques.
 """
@@ -34,15 +39,45 @@ def node_counts(net):
 
 
 def pend_dump(net):
+    """receive deques: (node, socket, entries); an entry is the virtual number of a delivered half, or the raw entanglement
+    information of a measure-directly pair (tuple) when the entry carries no qubit"""
     out = []
     for i, n in enumerate(net.nodes):
         for sock, dq in sorted(n.qubit_recv_epr.items()):
             if len(dq):
-                out.append((i, sock, [x.virt_num for x in dq]))
+                out.append((i, sock, [x.virt_num if x.virt_num is not None else tuple(x.rawEntInfo) for x in dq]))
     return out
 
 
-def make(kind, typ="K", pre=0, recv_local=0, coins=(1, 0), n_nodes=2, pb=False, after=True, slack=2):
+BASIS_SETS = {"Z": ("NONE", "XZ", "XYZ"), "X": ("XZ", "XYZ"), "Y": ("XYZ",)}
+WEIGHTS = {"NONE": (0, 0), "XZ": (128, 0), "XYZ": (85, 85)}
+
+
+def sample_bases(rb, probs, rng):
+    """the bases executioner.py's _sample_basis_choice draws for (local, remote) from `rng`: NONE -> Z without a draw,
+    XZ -> choices([X, Z], [p1, 256 - p1]), XYZ -> choices([X, Y, Z], [p1, p2, 256 - p1 - p2])"""
+    out = ""
+    for side, (p1, p2) in zip(rb, (probs[:2], probs[2:])):
+        if side == "NONE":
+            out += "Z"
+        elif side == "XZ":
+            out += rng.choices("XZ", [p1, 256 - p1])[0]
+        else:
+            out += rng.choices("XYZ", [p1, p2, 256 - p1 - p2])[0]
+    return out
+
+
+def make_md(bases="ZZ", rb=None, mcoins=(0, 0)):
+    """a measure-directly request whose creator samples `bases` (local, remote): basis sets, weights and the generator seed"""
+    rb = list(rb) if rb else [BASIS_SETS[b][-1] for b in bases]
+    assert all(r in BASIS_SETS[b] for r, b in zip(rb, bases)), (bases, rb)
+    probs = list(WEIGHTS[rb[0]]) + list(WEIGHTS[rb[1]])
+    seed = next(sd for sd in range(5000) if sample_bases(rb, probs, random.Random(sd)) == bases)
+    return {"bases": bases, "rb": rb, "probs": probs, "seed": seed, "mcoins": [int(c) for c in mcoins]}
+
+
+def make(kind, typ="K", pre=0, recv_local=0, coins=(1, 0), n_nodes=2, pb=False, after=True, slack=2, md=None, socks=(0, 0), then=None,
+         late_claim=False):
     """capacities are derived from the kind: (qubits, registers) per node"""
     big = 10
     cq, cr = pre + 2 + slack, big
@@ -58,8 +93,14 @@ def make(kind, typ="K", pre=0, recv_local=0, coins=(1, 0), n_nodes=2, pb=False, 
     elif kind == "register-for-none":
         cr = pre
     caps = [(cq, cr), (rq, rr)] + [(3, big)] * (n_nodes - 2)
+    if kind != "ok" or then == typ:
+        then = None
+    if then == "M":
+        caps[0] = (caps[0][0] + 1, caps[0][1])          # the kept half stays while the two temporaries of the second request exist
     return {"kind": kind, "type": typ, "pre": pre, "recv_local": recv_local, "coins": [int(c) for c in coins], "caps": caps,
-            "pb": pb, "after": bool(after and pre), "topology": {"N0": [], "N1": ["N0"]} if kind == "not-adjacent" else None}
+            "pb": pb, "after": bool(after and pre), "topology": {"N0": [], "N1": ["N0"]} if kind == "not-adjacent" else None,
+            "md": (md or make_md()) if "M" in (typ, then) else None, "socks": [int(socks[0]), int(socks[1])], "then": then,
+            "late_claim": bool(late_claim and then)}
 
 
 def fixed_scenarios():
@@ -71,17 +112,34 @@ def fixed_scenarios():
             make("md-rotation", typ="M", pre=1), make("register-for-one", pre=1), make("room-for-none", pre=1),
             make("register-for-none", pre=0), make("receiver-full", pre=1, pb=True), make("room-for-one", pre=1, pb=True),
             make("not-adjacent", pre=1), make("ok", pre=1), make("ok", typ="M", pre=1), make("ok", pre=0, n_nodes=3), make("ok", pre=2, pb=True)]
+    # measure-directly: all nine pairs of sampled bases, both coins, all three basis sets for Z; a second request of the other type
+    # behind / in front of it in the same deque; distinct socket ids; over the real PB; the failing variants with the cleanup
+    k = 0
+    for bl in "ZXY":
+        for br in "ZXY":
+            rb = [BASIS_SETS[bl][k % len(BASIS_SETS[bl])], BASIS_SETS[br][(k // 2) % len(BASIS_SETS[br])]]
+            out.append(make("ok", typ="M", pre=k % 2, md=make_md(bl + br, rb=rb, mcoins=(k % 2, (k // 3) % 2)), socks=[(0, 0), (1, 2), (2, 1)][k % 3],
+                            then=[None, "K", None, "K"][k % 4], late_claim=k % 8 == 3, pb=k == 4, recv_local=1 if k == 7 else 0, slack=k % 3))
+            k += 1
+    out += [make("ok", typ="K", pre=1, then="M", md=make_md("XY", mcoins=(1, 1)), late_claim=True, socks=(1, 0)),
+            make("ok", typ="K", pre=0, then="M", md=make_md("YY", mcoins=(0, 1))),
+            make("room-for-one", typ="M", pre=1, md=make_md("XX"), coins=(1,)), make("register-for-one", typ="M", pre=0, md=make_md("YZ")),
+            make("room-for-none", typ="M", pre=1, md=make_md("ZX")), make("not-adjacent", typ="M", pre=0, md=make_md("XZ")),
+            make("md-rotation", typ="M", pre=0, md=make_md("ZZ", rb=["XYZ", "XZ"]))]
     return out
 
 
 def random_scenario(rng):
     kind = rng.choice(["receiver-full", "receiver-full", "room-for-one", "room-for-one", "register-for-one", "room-for-none",
                        "register-for-none", "md-rotation", "not-adjacent", "ok", "ok"])
-    typ = "M" if kind == "md-rotation" else rng.choice(["K", "K", "M"])
+    typ = "M" if kind == "md-rotation" else rng.choice(["K", "M"])
     if kind == "receiver-full":
         typ = "K"                        # a measure-directly request hands no qubit over
+    bases = rng.choice("ZXY") + rng.choice("ZXY")
+    md = make_md(bases, rb=[rng.choice(BASIS_SETS[b]) for b in bases], mcoins=(rng.randrange(2), rng.randrange(2)))
     return make(kind, typ=typ, pre=rng.randrange(0, 3), recv_local=rng.randrange(0, 2), coins=(rng.randrange(2), rng.randrange(2)),
-                n_nodes=rng.choice([2, 2, 3]), pb=rng.random() < 0.2, after=rng.random() < 0.7, slack=rng.randrange(0, 3))
+                n_nodes=rng.choice([2, 2, 3]), pb=rng.random() < 0.2, after=rng.random() < 0.7, slack=rng.randrange(0, 3), md=md,
+                socks=rng.choice([(0, 0), (0, 0), (1, 2), (2, 0)]), then=rng.choice([None, None, "K", "M"]), late_claim=rng.random() < 0.5)
 
 
 def run(env, sc):
@@ -100,21 +158,25 @@ def run(env, sc):
     for h in net.hosts:
         h.factory.topology = sc.get("topology")
     pre, typ, kind = sc["pre"], sc["type"], sc["kind"]
-    claims = kind == "ok" and typ == "K"
     recv_app = sc["recv_local"] > 0 or kind == "ok"
+    md = sc.get("md")
+    ls, rs = sc.get("socks", [0, 0])
+    types = [typ] + ([sc["then"]] if sc.get("then") else [])
 
     def creator(conn, eprs):
         from netqasm.sdk.qubit import Qubit
+        from netqasm.qlink_compat import RandomBasis
         qs = [Qubit(conn) for _ in range(pre)]
         if qs:
             conn.flush()
-        if typ == "K":
-            eprs[0].create_keep(1)
-        elif kind == "md-rotation":
-            eprs[0].create_measure(1, rotations_local=(1, 0, 0))
-        else:
-            eprs[0].create_measure(1)
-        conn.flush()
+        for tp in types:
+            if tp == "K":
+                eprs[0].create_keep(1)
+            else:
+                EP.NEXT_PROBS[0] = list(md["probs"])
+                kw = {"rotations_local": (1, 0, 0)} if kind == "md-rotation" else {}
+                eprs[0].create_measure(1, random_basis_local=RandomBasis[md["rb"][0]], random_basis_remote=RandomBasis[md["rb"][1]], **kw)
+            conn.flush()
         if sc["after"]:
             qs[0].H()
             qs[0].measure()
@@ -126,14 +188,15 @@ def run(env, sc):
         if qs:
             conn.flush()
         if kind == "ok":
-            if typ == "K":
-                eprs[0].recv_keep(1)
-            else:
-                eprs[0].recv_measure(1)
-            conn.flush()
+            for tp in types:
+                if tp == "K":
+                    eprs[0].recv_keep(1)
+                else:
+                    eprs[0].recv_measure(1)
+                conn.flush()
     maxq = pre + 2
-    cm = EP.sdk_messages(names, "N0", 0, [("N1", 0, 0)], creator, max_qubits=maxq)
-    rm = EP.sdk_messages(names, "N1", 0, [("N0", 0, 0)], receiver, max_qubits=sc["recv_local"] + 1) if recv_app else []
+    cm = EP.sdk_messages(names, "N0", 0, [("N1", ls, rs)], creator, max_qubits=maxq)
+    rm = EP.sdk_messages(names, "N1", 0, [("N0", rs, ls)], receiver, max_qubits=sc["recv_local"] + 1) if recv_app else []
 
     def split(ms):
         subs = [m for m in ms if type(m).__name__ == "SubroutineMessage"]
@@ -150,18 +213,30 @@ def run(env, sc):
     if pre:
         plan.append((0, c_subs[0], "pre"))
         k = 1
-    plan.append((0, c_subs[k], "create"))
-    if kind == "ok":
-        plan.append((1, r_subs[-1], "claim"))
+    creates = [(0, c_subs[k + j], "create" if j == 0 else "create2") for j in range(len(types))]
+    claims = [(1, r_subs[len(r_subs) - len(types) + j], "claim" if j == 0 else "claim2") for j in range(len(types))] if kind == "ok" else []
+    if sc.get("late_claim"):
+        plan += creates + claims
+    else:
+        for j in range(len(types)):
+            plan += creates[j:j + 1] + claims[j:j + 1]
     if sc["after"]:
-        plan.append((0, c_subs[k + 1], "after"))
+        plan.append((0, c_subs[k + len(types)], "after"))
     plan += [(0, m, "stop") for m in c_stop] + [(1, m, "stop") for m in r_stop]
     base = node_counts(net)
     records = []
     coins_all = sc["coins"]
     for (h, m, role) in plan:
         tap0 = len(env.tap)
-        coins = list(coins_all) if role == "create" else [0] * 8
+        tp = types[1 if role.endswith("2") else 0] if role.startswith("c") else None
+        coins = [0] * 8
+        if role == "create":
+            coins = list(coins_all)
+        if role in ("create", "create2") and tp == "M":
+            if kind == "ok":
+                coins = list(md["mcoins"])           # the two destructive measurements of the pair
+            # executioner.py's `random` (basis choice): a seeded generator whose first draws are the bases of this request
+            env.E.random = random.Random(md["seed"])
         Q.script_coins(env, coins, tap0)
         before = {"counts": node_counts(net), "host": Q.host_dump(net, net.hosts[h])}
         out = EP.run_concurrently(env, net, {h: [m]}, random.Random(1))
@@ -169,7 +244,7 @@ def run(env, sc):
         (mm, rep, esc) = out[h][0]
         records.append({"host": h, "role": role, "msg": type(m).__name__, "wire": m, "replies": rep, "escaped": [str(e)[:200] for e in esc],
                         "calls": Q.tap_summary(net, env, tap0), "counts": node_counts(net), "dump": N.dump(net),
-                        "hostdump": Q.host_dump(net, net.hosts[h]), "pend": pend_dump(net), "before": before, "coins": coins})
+                        "hostdump": Q.host_dump(net, net.hosts[h]), "pend": pend_dump(net), "before": before, "coins": coins, "type": tp})
     return {"sc": sc, "records": records, "base": base, "net": net}
 
 
@@ -177,9 +252,17 @@ def run(env, sc):
 # oracle: the property on the implementation's behaviour alone
 # ------------------------------------------------------------------------------------------------------------------------------
 def describe(sc):
-    req = "create_keep(1)" if sc["type"] == "K" else ("create_measure(1, rotations_local=(1,0,0))" if sc["kind"] == "md-rotation" else "create_measure(1)")
-    return ("nodes (qubits, registers) %r%s%s; N0: init, %d local qubit(s), %s with N1 on sockets (0,0)%s, StopApp%s"
-            % (sc["caps"], " over real PB" if sc["pb"] else "", ", topology %r" % sc["topology"] if sc.get("topology") else "", sc["pre"], req,
+    md = sc.get("md")
+
+    def req(tp):
+        if tp == "K":
+            return "create_keep(1)"
+        return ("create_measure(1%s, basis sets %s/%s with weights %r, generator seed %d -> sampled bases %s, coins %r)"
+                % (", rotations_local=(1,0,0)" if sc["kind"] == "md-rotation" else "", md["rb"][0], md["rb"][1], md["probs"], md["seed"], md["bases"], md["mcoins"]))
+    reqs = req(sc["type"]) + (" then " + req(sc["then"]) if sc.get("then") else "")
+    return ("nodes (qubits, registers) %r%s%s; N0: init, %d local qubit(s), %s with N1 on sockets %r%s%s, StopApp%s"
+            % (sc["caps"], " over real PB" if sc["pb"] else "", ", topology %r" % sc["topology"] if sc.get("topology") else "", sc["pre"], reqs,
+               tuple(sc.get("socks", (0, 0))), " (N1 claims after both requests)" if sc.get("late_claim") else "",
                ", H + measure on the first local qubit" if sc["after"] else "",
                "; N1 holds %d local qubit(s)" % sc["recv_local"] if sc["recv_local"] else ""))
 
@@ -233,10 +316,12 @@ def judge(run_):
 
 def replay_obj(run_):
     sc = run_["sc"]
-    return {"scenario": {k: sc[k] for k in ("kind", "type", "pre", "recv_local", "coins", "caps", "pb", "after", "topology")}, "program": describe(sc),
+    return {"scenario": {k: sc.get(k) for k in ("kind", "type", "pre", "recv_local", "coins", "caps", "pb", "after", "topology", "md", "socks", "then", "late_claim")},
+            "program": describe(sc),
             "messages": [{"node": r["host"], "role": r["role"], "message": r["msg"], "replies": r["replies"],
                           "native_calls": [(c["method"], c["hid"], c["status"], str(c["value"])) for c in r["calls"]],
-                          "counts_after": r["counts"], "qubitList_ids": sorted(r["hostdump"]["qlist"]), "used_ids": r["hostdump"]["used"]}
+                          "counts_after": r["counts"], "qubitList_ids": sorted(r["hostdump"]["qlist"]), "used_ids": r["hostdump"]["used"],
+                          "receive_deques": [(n, k, [list(x) if isinstance(x, tuple) else x for x in es]) for n, k, es in r["pend"]]}
                          for r in run_["records"]]}
 
 
@@ -244,11 +329,29 @@ def replay_obj(run_):
 # correspondence with Qasm/EprCases.v
 # ------------------------------------------------------------------------------------------------------------------------------
 def modelled(sc):
-    """measure-directly requests are modelled only as far as they are the same code path as create-and-keep: up to and including
-    a refused cmd_new"""
-    if sc["type"] == "K":
-        return True
-    return sc["kind"] in ("room-for-one", "register-for-one", "room-for-none", "register-for-none", "not-adjacent")
+    """everything but a measure-directly request with a rotation (refused by an assertion the model has no input for)"""
+    return sc["kind"] != "md-rotation"
+
+
+BCOQ = {"Z": "BZ", "X": "BX", "Y": "BY"}
+
+
+def cmrec(raw):
+    """raw LinkLayerOKTypeM tuple (type, create_id, outcome, basis, directionality, sequence number, purpose id, remote node id,
+    goodness, bell state) -> Coq mrec; anything that is not a well-formed OK_M record becomes a record the model never produces"""
+    raw = list(raw)
+    if len(raw) != 10 or raw[0] != 1 or raw[8] != 1 or raw[9] != 0 or raw[3] not in (0, 1, 2) or any((not isinstance(v, int)) or v < 0 for v in raw):
+        return "(mkMrec 99 BZ 99 99 99 99)"
+    return "(mkMrec %d %s %d %d %d %d)" % (raw[2], ("BZ", "BX", "BY")[raw[3]], raw[5], raw[4], raw[7], raw[6])
+
+
+def mrecs_of(replies):
+    """the measure-directly records among the arrays a message returned (OK_FIELDS values, none undefined, type OK_M = 1)"""
+    out = []
+    for r in replies:
+        if r[0] == "arr" and len(r[2]) == EP.OK_FIELDS and None not in r[2] and r[2][0] == 1:
+            out.append(tuple(r[2]))
+    return out
 
 
 def acts_of(run_, r):
@@ -256,25 +359,32 @@ def acts_of(run_, r):
     sc = run_["sc"]
     h, role = r["host"], r["role"]
     known = "[" + ";".join(str(i) for i in range(len(sc["caps"]))) + "]"
+    ls, rs = sc.get("socks", [0, 0])
+    md = sc.get("md")
     if r["msg"] == "InitNewAppMessage":
-        return ["AInstr %d (QInitApp 0 %d)" % (h, r["wire"].max_qubits)]
+        return ["EA (AInstr %d (QInitApp 0 %d))" % (h, r["wire"].max_qubits)]
     if r["msg"] == "OpenEPRSocketMessage":
         return []
     if role in ("pre", "recv-pre"):
         n = sc["pre"] if role == "pre" else sc["recv_local"]
         out = []
         for a in range(n):
-            out += ["AInstr %d (QAlloc 0 %d)" % (h, a), "AInstr %d (QInit 0 %d f)" % (h, a)]
+            out += ["EA (AInstr %d (QAlloc 0 %d))" % (h, a), "EA (AInstr %d (QInit 0 %d f))" % (h, a)]
         return out
-    if role == "create":
-        return ["ACreate 0 0 %d %s 1 %s 0 %s" % (sc["pre"], known, "f" if sc["kind"] == "not-adjacent" else "t", common.cblist(sc["coins"]))]
-    if role == "claim":
-        return ["ARecv 1 0 %d 0" % sc["recv_local"]]
+    if role in ("create", "create2"):
+        adj = "f" if sc["kind"] == "not-adjacent" else "t"
+        cleanup = common.cblist(sc["coins"] if role == "create" else [])
+        if r["type"] == "K":
+            return ["EK %d (ACreate 0 0 %d %s 1 %s %d %s)" % (ls, sc["pre"], known, adj, rs, cleanup)]
+        return ["EM 0 %s 1 %s %d %d %s %s %s %s %s" % (known, adj, ls, rs, BCOQ[md["bases"][0]], BCOQ[md["bases"][1]],
+                                                      common.cbool(md["mcoins"][0]), common.cbool(md["mcoins"][1]), cleanup)]
+    if role in ("claim", "claim2"):          # the receiver's local socket is the creator's remote socket
+        return ["EA (ARecv 1 0 %d %d)" % (sc["recv_local"], rs)]
     if role == "after":          # the SDK's measure() frees the qubit afterwards
-        return ["AInstr 0 (QG1 0 0 VH)", "AInstr 0 (QMeas 0 0 f)", "AInstr 0 (QFree 0 0 f)"]
+        return ["EA (AInstr 0 (QG1 0 0 VH))", "EA (AInstr 0 (QMeas 0 0 f))", "EA (AInstr 0 (QFree 0 0 f))"]
     if role == "stop":
         n = sum(1 for c in r["calls"] if c["method"] == "measure")
-        return ["AInstr %d (QStopApp 0 %s)" % (h, common.cblist([0] * n))]
+        return ["EA (AInstr %d (QStopApp 0 %s))" % (h, common.cblist([0] * n))]
     raise ValueError(role)
 
 
@@ -290,6 +400,8 @@ def ccall_epr(calls, n_names):
             continue
         if m == "netqasm_get_epr_recv":
             continue
+        if m == "netqasm_send_epr_half" and c["args"] and c["args"][0] is None and c["status"] == "ok":
+            continue             # the outcome record of a measure-directly pair: no qubit; compared through the deque dump
         if m == "netqasm_send_epr_half" and c["args"] and c["args"][0] is not None and last_hid is not None:
             tgt = c["args"][1]
             ti = int(tgt[1:]) if isinstance(tgt, str) and tgt[1:].isdigit() else 9999
@@ -307,7 +419,7 @@ def ccall_epr(calls, n_names):
 
 
 def cpend(p):
-    return "[" + ";".join("(%d,%d,[%s])" % (n, s, ";".join(str(-1 if x is None else x) for x in nums)) for n, s, nums in p) + "]"
+    return "[" + ";".join("(%d,%d,[%s])" % (n, s, ";".join("QM " + cmrec(x) if isinstance(x, tuple) else "QK %d" % x for x in es)) for n, s, es in p) + "]"
 
 
 def csession(run_):
@@ -319,13 +431,14 @@ def csession(run_):
         err = ("err", 0) in r["replies"]
         done = bool(r["replies"]) and r["replies"][-1][0] == "done"
         fin = 2 if not done else (1 if err else 0)
-        msgs.append("(%d, [%s], %d, [%s], %s, %s, %s)" % (r["host"], "; ".join(acts), fin, "; ".join(ccall_epr(r["calls"], len(sc["caps"]))),
-                                                          R.cdump(r["dump"]), QR.chost(r["hostdump"]), cpend(r["pend"])))
+        msgs.append("(%d, [%s], %d, [%s], %s, %s, %s, [%s])" % (r["host"], "; ".join(acts), fin, "; ".join(ccall_epr(r["calls"], len(sc["caps"]))),
+                                                                R.cdump(r["dump"]), QR.chost(r["hostdump"]), cpend(r["pend"]),
+                                                                "; ".join(cmrec(x) for x in mrecs_of(r["replies"]))))
     return "(%s,\n [%s])" % (caps, ";\n  ".join(msgs))
 
 
 def cases_text(runs):
-    return (common.CASE_HEADER + "From SQ Require Import Base.ListUtil Stab.Tableau Net.Model Net.Cases Qasm.Exec Qasm.Cases Qasm.EprGate "
+    return (common.CASE_HEADER + "From SQ Require Import Base.ListUtil Stab.Tableau Net.Model Net.Cases Qasm.Exec Qasm.Cases Qasm.Epr Qasm.EprGate "
             "Qasm.TeardownNet Qasm.EprCases.\n"
             "Definition cases : list (list (nat * nat) * list demsg) := [\n" + ";\n".join(csession(r) for r in runs) + "\n].\n"
             "Eval vm_compute in (map check_esession cases).\n")
@@ -354,7 +467,10 @@ def correspond(ctx, runs, shard=12):
         rec = r["records"][i]
         detail = "first disagreement: scenario %s, message %d (%s at node %d): replies %r, native calls %r" % (
             describe(r["sc"]), i, rec["role"], rec["host"], rec["replies"], [(c["method"], c["hid"], c["status"], str(c["value"])) for c in rec["calls"]])
-    ctx.obligation("correspondence EprGate.cmd_epr_keep / TeardownNet.nstep_r vs the real cmd_epr: model = implementation (ending, every native call and "
-                   "result incl. the removal of the temporaries, dump of all nodes, host bookkeeping, receive deques) after every one of %d messages "
-                   "in %d scenarios (%d with a request that fails)" % (nmsg, len(runs), nfail), okall and not bad, detail)
+    nmd = sum(1 for r in runs for m in r["records"] if m.get("type") == "M" and m["role"].startswith("create") and r["sc"]["kind"] == "ok")
+    ctx.obligation("correspondence EprGate.cmd_epr_keep / cmd_epr_measure / TeardownNet.nstep_r vs the real cmd_epr / cmd_epr_recv: model = implementation "
+                   "(ending, every native call and result incl. basis rotations, the destructive measurements of measure-directly pairs with their coins "
+                   "and the removal of the temporaries, dump of all nodes, host bookkeeping, receive deques incl. queued outcome records, the "
+                   "measure-directly records returned to both hosts) after every one of %d messages in %d scenarios (%d with a request that fails, "
+                   "%d successful measure-directly pairs)" % (nmsg, len(runs), nfail, nmd), okall and not bad, detail)
     return bad
